@@ -26,7 +26,11 @@ META = {
                   "vertex_to_vertices the matching vertex ring; unsorted: the corner / neighbour sets; vertex_to_faces / "
                   "vertex_to_edges / face_to_corners / face_to_faces / face_to_edges element by element; common_edge, "
                   "in_face_index, other_edge_end; border / interior partition of edges and vertices; the per-case boolean checks "
-                  "imply the theorems' hypotheses for the finished object. Statements are for ids >= 0 (Python's wrap-around of "
+                  "imply the theorems' hypotheses for the finished object; a fresh mesh answers every query exactly as after "
+                  "any script (C01_fresh_as_later); the kind of the sorted corner ring is the border classification (open fan iff "
+                  "is_vertex_on_border, closed ring iff not: C01_ring_kind_is_border_class); every query the property names is "
+                  "answered with a value, never an exception, when it names an element (C01_named_queries_answered). "
+                  "Statements are for ids >= 0 (Python's wrap-around of "
                   "negative indices is not modelled). TIE TO THE SOURCE: Gen.v is regenerated from surface.py/linear.py on every "
                   "run and contains, per accessor and compute method, the lazy guard, assigned/cleared attributes, dictionary keys "
                   "and stored entries, index formulas, call argument orders, return expressions, branch tests/polarities, the "
